@@ -450,6 +450,8 @@ def evaluate(case, env):
                 L = stn.lineno
                 if ref.kind != "module" and L == ref.start:
                     continue  # one-line suite: shares the header line
+                if lines[stn.lineno - 1].encode("utf-8")[: stn.col_offset].strip():
+                    continue  # does not start its physical line (one-line suite or after ';' / a multi-line header)
                 if any(o is not stn and o.lineno < stn.lineno <= o.end_lineno for o in ref.body_stmts):
                     continue  # starts on a continuation line of the previous statement (after ';')
                 if getattr(stn, "decorator_list", None):
